@@ -363,6 +363,53 @@ theorem copies_are_deep :
 
 /-! ## non-vacuity -/
 
+/-! ## rarely written label forms; lists re-assigned after construction -/
+
+/-- the UNNAMED environment `""` (the only environment of a network built without an environment list) is a dictionary key
+like any other: `"".split(",")` is `[""]`, so an entry keyed by it is kept by the density / chemostat setters -/
+theorem unnamed_key : dictKeys "" = [""] ∧ dictKeys "default" = ["default"] := by
+  constructor <;> decide
+
+/-- a density dictionary with an entry for the unnamed environment and a `"default"` entry: cells of the unnamed environment
+get the former, every other environment the latter -/
+theorem unnamed_env_entry {sys : Sys} {dim : Dim} {q dq : QIn} {x dx : UVal}
+    (h : q.toUVal sys dim = .ok x) (hd : dq.toUVal sys dim = .ok dx) (dflt : UVal) :
+    ∃ d, processUnitVar sys dim (.dict [("", q), ("default", dq)]) = .ok d ∧
+      valueInEnv d "" dflt = x ∧ valueInEnv d "cyt" dflt = dx := by
+  refine ⟨.dict [("", x), ("default", dx)], ?_, ?_, ?_⟩
+  · simp [processUnitVar, processUnitVar.go, h, hd, unnamed_key.1, unnamed_key.2, dictSet]
+  · simp [valueInEnv]
+  · have : envFallbackKeys = ["default"] := default_constants.1
+    simp [valueInEnv, this, List.lookup]
+
+/-- the index of a species named by label / by object is its position in the CURRENT species list (labels distinct) -
+whatever list the network was constructed with: the model keeps nothing else -/
+theorem species_index_current (net : Network) {k : Nat} (hk : k < net.species.length)
+    (hd : (net.species.map (·.label)).Nodup) :
+    speciesIndex net (.label net.species[k].label) = some (k : Int) ∧
+    speciesIndex net (.obj net.species[k].label) = some (k : Int) ∧
+    speciesIndex net (.idx k) = some (k : Int) := by
+  have key : (net.species.findIdx? fun sp => sp.label == net.species[k].label) = some k := by
+    rw [List.findIdx?_eq_some_iff_getElem]
+    refine ⟨hk, by simp, fun j hj hEq => ?_⟩
+    have hj' : j < net.species.length := Nat.lt_trans hj hk
+    have hl : net.species[j].label = net.species[k].label := by simpa using hEq
+    have hne := (List.pairwise_iff_getElem.1 hd) j k (by simpa using hj') (by simpa using hk) hj
+    exact hne (by simpa using hl)
+  refine ⟨by simp [speciesIndex, key], by simp [speciesIndex, key], ?_⟩
+  simp [speciesIndex, hk]
+
+/-- re-assigning the species list / the environment list of the network of a system touches neither the space nor the
+arrays; the defaults regenerated afterwards are those of the current lists (`regenerate_reflects_edit`) -/
+theorem assign_keeps_arrays {s s' : System} {order : List Nat} (h : s.assignSpeciesOrder order = .ok s') (envs : List String) :
+    s'.space = s.space ∧ s'.state = s.state ∧ s'.chem = s.chem ∧ s'.net.envs = s.net.envs ∧ s'.net.sys = s.net.sys ∧
+    (s.assignEnvs envs).net.species = s.net.species ∧ (s.assignEnvs envs).net.envs = envs ∧
+    (s.assignEnvs envs).state = s.state ∧ (s.assignEnvs envs).chem = s.chem := by
+  unfold System.assignSpeciesOrder at h
+  split at h
+  · cases h
+  · cases h; simp [System.assignEnvs]
+
 example : stateIndex 4 1 2 = 6 ∧ stateIndex 4 0 3 = 3 := by decide
 
 end Strengths.C13
